@@ -116,7 +116,8 @@ func (c02Suite) Gen(rng *Rng, tier string, w *bufio.Writer, stats *Stats) {
 		name string
 		qs   []string
 	}{{"suffix", focusedSuffixShapes()}, {"aggregate", focusedAggregateShapes()}, {"agg-traversal", focusedAggTraversalShapes()},
-		{"collect-membership", focusedCollectMembershipShapes()}, {"scope", focusedScopeShapes()}, {"path-predicate", focusedPathPredicateShapes()}, {"string-literal", focusedStringLiteralShapes()}} {
+		{"collect-membership", focusedCollectMembershipShapes()}, {"scope", focusedScopeShapes()}, {"path-predicate", focusedPathPredicateShapes()}, {"string-literal", focusedStringLiteralShapes()},
+		{"sort-keyword", focusedSortKeywordShapes()}} {
 		for _, q := range fam.qs {
 			emitFixedSeed("focused:"+fam.name, q)
 			stats.Inc("focused." + fam.name)
@@ -165,6 +166,14 @@ func (c02Suite) Gen(rng *Rng, tier string, w *bufio.Writer, stats *Stats) {
 	for i := 0; i < nfrag/2; i++ {
 		emit("fragment:s2n", fg.countHopQuery(), 0, 0)
 		stats.Inc("fragment.s2n")
+	}
+	for i := 0; i < nfrag/2; i++ {
+		emit("fragment:s2l", fg.limitHopQuery(), 0, 0)
+		stats.Inc("fragment.s2l")
+	}
+	for i := 0; i < nfrag/2; i++ {
+		emit("fragment:s2cw", fg.chainWhereQuery(), 0, 0)
+		stats.Inc("fragment.s2cw")
 	}
 	for _, k := range []string{"", ":NodeKind1", ":NodeKind2", ":NodeKind1:NodeKind2", ":NodeKind2:NodeKind1"} {
 		emit("fragment:count", "match (n"+k+") return count(n)", 0, 0)
@@ -223,7 +232,7 @@ func (r *c02Runner) Step(t []string, raw string) string {
 		r.stats.Inc("updating")
 		return "err updating-query"
 	}
-	cy := ToSexp(model)
+	cy := refSexp(q, model) // sort directions read from the text, not from the frontend's model (harness/sortdir.go)
 
 	// the optimised translation is the REAL entry point
 	resO, terr, panicked := translateSafe(model, r.mapper, nil)
@@ -278,7 +287,7 @@ func (r *c02Runner) Step(t []string, raw string) string {
 	// the optimiser's rewritten query (what the translator walks)
 	cyopt := "nil"
 	if plan, perr := optimize.Optimize(model); perr == nil && plan.Query != nil {
-		cyopt = ToSexp(plan.Query)
+		cyopt = refSexp(q, plan.Query)
 	}
 
 	part := func(rules, lowerings bool) string {
